@@ -615,13 +615,27 @@ class _Registry:
 _TS = None
 
 
-def _mission(o, d):
+def _mission(o, d, via='ctor', sched_km=0):
+    """A Mission built the three documented ways: the constructor, a mission-database query result (which carries the
+    schedule's own, rounded and often inaccurate, distance in km) and the sample-mission TOML form."""
     global _TS
     import pandas as pd
     from AEIC.missions import Mission
 
     if _TS is None:
         _TS = (pd.Timestamp('2024-09-01 12:00', tz='UTC'), pd.Timestamp('2024-09-01 18:00', tz='UTC'))
+    if via == 'query_result':
+        from AEIC.missions.query import QueryResult
+
+        qr = QueryResult(departure=_TS[0], arrival=_TS[1], carrier='ZZ', flight_number='1', origin=o,
+                         origin_country='ZZ', destination=d, destination_country='ZZ', service_type='J',
+                         aircraft_type='738', engine_type=None, distance=int(sched_km), seat_capacity=150, id=7,
+                         flight_id=3)
+        return Mission.from_query_result(qr)
+    if via == 'toml':
+        return Mission.from_toml({'flight': [{
+            'origin': o, 'destination': d, 'departure': '2024-09-01T12:00:00+00:00',
+            'arrival': '2024-09-01T18:00:00+00:00', 'load_factor': 1.0, 'aircraft_type': '738'}]})[0]
     return Mission(origin=o, destination=d, departure=_TS[0], arrival=_TS[1], load_factor=1.0, aircraft_type='738')
 
 
@@ -659,8 +673,14 @@ def body_mission(ctx, case):
             swapped = float(G().inv(p[1], p[0], q[1], q[0])[2])
         except Exception:  # noqa: BLE001  (pyproj may refuse |lat| > 90)
             swapped = float('nan')
+        # how the two missions are built: derived from the case (no extra randomness), the schedule distance of a
+        # query result is the true one rounded to km plus an error of -40..+40 km, different for the two directions
+        h = int(want) % 7
+        via = 'query_result' if h in (0, 1, 2) else 'toml' if h == 3 else 'ctor'
+        ctx.label('mission.via.' + via)
+        km = max(int(want / 1000.0) + (int(want) % 81) - 40, 0)
         try:
-            m, r = _mission(o, d), _mission(d, o)
+            m, r = _mission(o, d, via, km), _mission(d, o, via, max(km + 13, 1))
             got, rev = float(m.gc_distance), float(r.gc_distance)
             gt = GroundTrack.great_circle(m.origin_position.location, m.destination_position.location)
             tl = float(gt.total_distance)
